@@ -128,7 +128,7 @@ func cmdCheck(args []string) int {
 	curFacets := setFacets(cfg.Facets)
 	p, e := loadAll()
 	extraAssumptions := map[string]bool{}
-	timeout := 10
+	timeout := 15
 	if cfg.Timeout > 0 {
 		timeout = cfg.Timeout
 	}
